@@ -39,6 +39,9 @@ def make_flow(root, shape, tail, pulls, fault=None):
                     if fault and fault[0] == where and fault[1] == ri and fault[2] == 'end':
                         raise Injected('%s fault at end of resource %d' % (where, ri))
                 yield rows()
+            if fault and fault[0] == where and fault[1] == 'iterend':
+                # the step's own end-of-stream code (after the last resource has been handed on and read)
+                raise Injected('%s fault after the last resource' % where)
         return step
     links.append(core.dataflows.add_field('A', 'integer', 1))
     links.append(injector('up'))
@@ -113,7 +116,7 @@ def retry_while_alive(d, shape, tail, ref, where, ri, j):
             make_flow(root, shape, tail, [], (where, ri, j)).results()
         except Exception as e:
             keep.append(e)
-        label = 'fresh Flow run while the pipeline that failed in the %sstream step at resource %d row %s is still referenced' % (where, ri, j)
+        label = 'fresh Flow run while the pipeline that failed in the %sstream step at resource %s row %s is still referenced' % (where, ri, j)
         pulls = []
         try:
             res, dp, _ = make_flow(root, shape, tail, pulls).results()
@@ -154,7 +157,7 @@ def same_object_retry(d, shape, tail, ref, where, ri, j):
         first = 'exc'
     gc.collect()
     fault[1] = -1          # the fault is gone
-    label = 'same Flow object retried after an exception in the %sstream step at resource %d row %s' % (where, ri, j)
+    label = 'same Flow object retried after an exception in the %sstream step at resource %s row %s' % (where, ri, j)
     try:
         res, dp, _ = flow.results()
         second = ('ok', [enc_rows(r) for r in res], copy.deepcopy(dp.descriptor))
@@ -229,7 +232,7 @@ def check_scenario(sc):
             shutil.rmtree(r_root, ignore_errors=True)
         # (3) exception from an upstream / downstream step at every row and at exhaustion
         for where in ('up', 'down'):
-            for ri, n in enumerate(shape):
+            for ri, n in list(enumerate(shape)) + [('iterend', 0)]:
                 for j in list(range(n)) + ['end']:
                     r_root = os.path.join(d, 's')
                     shutil.rmtree(r_root, ignore_errors=True)
@@ -241,8 +244,13 @@ def check_scenario(sc):
                     if fr[0] == 'ok':
                         V('fault-swallowed', 'step fault %s/%d/%s but the run returned normally' % (where, ri, j),
                           {'kind': 'stepfault', 'where': where, 'ri': ri, 'j': j})
-                    v, committed = recover(after, shape, tail, ref, 'exception in %sstream step at resource %d row %s'
+                    v, committed = recover(after, shape, tail, ref, 'exception in %sstream step at resource %s row %s'
                                            % (where, ri, j), d)
+                    if not v and where == 'up' and fr[0] == 'exc' and committed:
+                        # a step before the checkpoint failed: whatever the checkpoint had received by then, the run did not
+                        # complete and nothing usable may exist (the next run would silently skip the step that failed)
+                        v = ('failed-run-committed', 'exception in upstream step at resource %s row %s: the failed run left a '
+                             'committed checkpoint behind' % (ri, j))
                     if not v:
                         v2 = same_object_retry(d, shape, tail, ref, where, ri, j)
                         note('same-object-retry')
